@@ -151,6 +151,16 @@ package ice
 //@   site call String#1 ghost dup := has(t.conns, result)
 //@   ensures closed-packet-conn-attaches-nothing: old(closed(t.closedChan)) ==> result != nil
 //@   ensures a-remote-address-is-attached-at-most-once: !old(closed(t.closedChan)) && dup ==> result != nil
+//@   ghostvar rkey int = 0
+//@   site call String#3 ghost rkey := result
+//@   site call Add#1 assert the-connection-registered-for-the-remote-is-the-very-object-the-reader-works-on: has(t.conns, rkey) && t.conns[rkey] == conn
+// (the reader detaches and closes what it reads from; were that not the registered object - for instance the
+// raw connection under a buffered wrapper - the wrapper's writer goroutine would outlive the mux)
+//@ func (*tcpPacketConn).AddConn$1
+//@   props C15
+//@   opt nosafety
+//@   requires conn != nil
+//@   site call startReading#1 assert reads-from-the-registered-connection-object: arg0 == t && arg1 == conn
 
 // Cleanup after a packet connection closed: an emptied per-ufrag table is dropped
 // from the family it belongs to (never from the other one).
